@@ -1,6 +1,6 @@
 (* C01 — exported theorems only: each is closed by [exact] and followed by Print Assumptions. *)
 From Coq Require Import List ZArith Bool.
-From Verif Require Import Lib.Vec2 Lib.Interleave C01.Model C01.Spec C01.Proofs_Base C01.Proofs_Unique C01.Proofs_Reset C01.Proofs_Main C01.Proofs_Conc.
+From Verif Require Import Lib.Vec2 Lib.Interleave C01.Model C01.Spec C01.Proofs_Base C01.Proofs_Unique C01.Proofs_Reset C01.Proofs_Main C01.Proofs_Conc C01.Plugin C01.Proofs_Findings.
 Import ListNotations.
 Open Scope Z_scope.
 
@@ -124,22 +124,10 @@ Example c01_conc_nonvacuous :
 Proof. vm_compute. repeat split; reflexivity. Qed.
 
 (* ---------- findings: the plugin layer breaks the discipline the core relies on ---------- *)
-From Verif Require Import C01.Plugin.
 
-Definition ex_pp (c m : Z) (bound : bool) : ppod := mkPP (mkPod 1 (c, m) false bound false) 3.
-Definition ex_q3 : qshape := mkQ 3 0 false true (96, 160) (0, 0).
-
-(* sig 1 — a pod that arrived before its quota is counted twice: pod add (-> default quota), quota
-   add, ANY update event before the next migrateDefaultQuotaGroupsPod run, the run *)
-Definition ex_double_count : list pop :=
-  [PlPodAdd (ex_pp 10 10 true); PlQuotaAdd ex_q3; PlPodUpdate (ex_pp 10 10 true) (ex_pp 10 10 true); PlMigrate].
-(* sig 2 — the migration hands the object stored at add time to MigratePod *)
-Definition ex_stale_migrate : list pop :=
-  [PlPodAdd (ex_pp 10 10 false); PlPodUpdate (ex_pp 30 30 true) (ex_pp 10 10 false); PlQuotaAdd ex_q3; PlMigrate].
-(* sig 2 (second shape) — a delete event routed to the new quota misses the pod in the default cache *)
-Definition ex_lost_delete : list pop :=
-  [PlPodAdd (ex_pp 10 10 true); PlQuotaAdd ex_q3; PlPodDelete (ex_pp 10 10 true); PlMigrate].
-
+(* three histories that obey the discipline at the plugin's interface and after which the reported
+   figures differ from the recomputation (double count / phantom usage of a pod that arrived before
+   its quota): see findings/C01-default-quota-routing.md *)
 Theorem c01_plugin_routing_refuted :
   (pwf_history (pinit (1000, 1000) (1000, 1000)) ex_double_count = true /\
    pstate_code (prun (pinit (1000, 1000) (1000, 1000)) ex_double_count) = 1 /\
@@ -150,5 +138,5 @@ Theorem c01_plugin_routing_refuted :
   (pwf_history (pinit (1000, 1000) (1000, 1000)) ex_lost_delete = true /\
    pstate_code (prun (pinit (1000, 1000) (1000, 1000)) ex_lost_delete) = 1 /\
    u_used (st_u (ps_core (prun (pinit (1000, 1000) (1000, 1000)) ex_lost_delete)) 3) = (10, 10)).
-Proof. vm_compute. repeat split; reflexivity. Qed.
+Proof. exact plugin_routing_refuted. Qed.
 Print Assumptions c01_plugin_routing_refuted.
